@@ -99,7 +99,7 @@ def bindings(tagmap, reassign, x):
     return seq
 
 
-def run_probe(ns, sel, x, observer=False, outer=None):
+def run_probe(ns, sel, x, observer=False, outer=None, overridable=False):
     """Returns ('ok', [(name, value)...], instrumented names seen by the observer) or ('refused', exc type)."""
     from ptera import probing, BaseOverlay, Immediate
     from ptera.selector import SelectorError, select
@@ -119,7 +119,7 @@ def run_probe(ns, sel, x, observer=False, outer=None):
         po = probing(outer, env={"f": f, **ns}, raw=True)
         po.__enter__()
     try:
-        p = probing(sel, env={"f": f, **ns}, raw=True)
+        p = probing(sel, env={"f": f, **ns}, raw=True, overridable=overridable)
         p.subscribe(on)
         p.__enter__()
     except SelectorError:
@@ -142,6 +142,32 @@ def run_probe(ns, sel, x, observer=False, outer=None):
         if po:
             po.__exit__(None, None, None)
     return ("ok", got), (seen if observer else None)
+
+
+def run_pair(ns, tagged_sel, plain_sel, x, plain_first):
+    """Both probes active on one call; returns what the plain one received, [(name, value)]."""
+    from ptera import probing
+
+    f = ns["f"]
+    got = []
+    pt = probing(tagged_sel, env={"f": f, **ns}, raw=True)
+    pp = probing(plain_sel, env={"f": f, **ns}, raw=True)
+    pp.subscribe(lambda ev: got.extend((n, v) for cap in ev.values() for n, v in zip(cap.names, cap.values)))
+    order = [pp, pt] if plain_first else [pt, pp]
+    try:
+        for p in order:
+            p.__enter__()
+        f(x)
+    except BaseException as e:
+        world.reset_context()
+        return ("error", type(e).__name__ + ": " + str(e)[:100])
+    finally:
+        for p in reversed(order):
+            try:
+                p.__exit__(None, None, None)
+            except BaseException:
+                pass
+    return got
 
 
 def check_program(prog, tier, part):
@@ -183,6 +209,24 @@ def check_program(prog, tier, part):
                 report("wrong-tag-capture", sel, f"expected exactly {exp!r} (bindings annotated with @{T}), delivered {res[1]!r}")
             else:
                 part["nontrivial"] += 1
+            # the same selector as an overridable probe (events are delivered when the value is about to be
+            # stored): the same bindings under their real names
+            case(sel + " overridable")
+            res3, _ = run_probe(ns, sel, x, overridable=True)
+            if res3[0] != "ok" or res3[1] != exp:
+                report("wrong-tag-capture-overridable", sel, f"probing(.., raw=True, overridable=True): expected {exp!r}, delivered {res3[1]!r}")
+            # a plain probe on the first tagged name at the same time, activated before / after the tag probe
+            tagged = [n for n, v, tags in seq if T in tags]
+            if tagged and sel.startswith("f > $v"):
+                nm = tagged[0]
+                want_plain = [(n, v) for n, v, tags in seq if n == nm]
+                for first in (True, False):
+                    case(sel + " with f > " + nm)
+                    got_plain = run_pair(ns, f"f > {nm}:@{T}", f"f > {nm}", x, first)
+                    if got_plain != want_plain:
+                        report("plain-probe-next-to-tagged", f"f > {nm}:@{T} + f > {nm}",
+                               f"'f > {nm}' active together with 'f > {nm}:@{T}' ({'plain first' if first else 'tagged first'}): "
+                               f"expected every binding {want_plain!r}, delivered {got_plain!r}")
             # the same tag probe while everything is instrumented by an unrestricted generic probe
             case(sel + " inside f > $y")
             res2, _ = run_probe(ns, sel, x, outer="f > $y")
@@ -258,6 +302,16 @@ def f(x){rf}:
 def g(x){rg}:
     a = E(2, x + 10)
     return a
+
+def make(k):
+    # a tooled closure with the return annotation of f
+    @tooled
+    def h(x){rf}:
+        a = E(3, x + k)
+        return a
+    return h
+
+h = make(20)
 '''
 
 
@@ -281,11 +335,12 @@ def check_functions(part, tier):
                 with ol:
                     ns["f"](1)
                     ns["g"](1)
+                    ns["h"](1)
             except BaseException as e:
                 world.reset_context()
                 part["violations"].append(violation(PROP, "function-tag-error", {"src": src, "selector": sel}, f"{type(e).__name__}: {e}", tags=["function-tag"]))
                 continue
-            exp = ([1] if T in tf else []) + ([11] if T in tg else [])
+            exp = ([1] if T in tf else []) + ([11] if T in tg else []) + ([21] if T in tf else [])
             part["outcomes"][f"function-tag:{len(exp)}"] += 1
             if got != exp:
                 part["violations"].append(violation(
